@@ -322,7 +322,15 @@ func exploreCase(prog *ssa.Program, hs *HarnessSpec, cases map[string]int64, bas
 				}
 			}
 			res.Undecided = append(res.Undecided, fmt.Sprintf("path %d: %s: %s", pr.No, pr.Outcome, firstN(pr.Msg, 300)))
-		default: // unsupported, bound, steps
+		case "unsupported":
+			// the code under test uses something the encoder does not model: nothing can be claimed
+			// for this harness instance (never a pass; a reduced bound would hide a change that moves
+			// the code out of the encodable fragment)
+			if res.EngineError == "" {
+				res.EngineError = fmt.Sprintf("path %d: not encodable: %s", pr.No, firstN(pr.Msg, 300))
+			}
+			res.Undecided = append(res.Undecided, fmt.Sprintf("path %d: %s: %s", pr.No, pr.Outcome, firstN(pr.Msg, 300)))
+		default: // bound, steps
 			res.Undecided = append(res.Undecided, fmt.Sprintf("path %d: %s: %s", pr.No, pr.Outcome, firstN(pr.Msg, 300)))
 		}
 		if len(res.Samples) < 3 && pr.Outcome == "complete" {
